@@ -169,6 +169,7 @@ func ruleQueryFromParsedForm(c *chk.Ctx) {
 func ruleGetterForwardsRawResult(c *chk.Ctx) {
 	f := jhttpFunc(c, "(Getter).ServeHTTP")
 	if f == nil {
+		c.Undecided("PROV.raw", nil, "ruleGetterForwardsRawResult: anchor", 0, "the code this rule is anchored in was not found (f == nil)")
 		return
 	}
 	n := 0
@@ -439,6 +440,7 @@ func ruleResultOnlyWithoutError(c *chk.Ctx, d *dispatchModel) {
 func ruleStopCauseIsTheArgument(c *chk.Ctx, owner string) {
 	stop := stopFunc(c, owner)
 	if stop == nil {
+		c.Undecided("RUN.coupled", nil, "ruleStopCauseIsTheArgument: anchor", 0, "the code this rule is anchored in was not found (stop == nil)")
 		return
 	}
 	errF := c.M.SErr
@@ -452,6 +454,7 @@ func ruleStopCauseIsTheArgument(c *chk.Ctx, owner string) {
 		}
 	}
 	if cause == nil {
+		c.Undecided("RUN.coupled", nil, "ruleStopCauseIsTheArgument: anchor", 0, "the code this rule is anchored in was not found (cause == nil)")
 		return
 	}
 	n := 0
@@ -473,6 +476,7 @@ func ruleStopCauseIsTheArgument(c *chk.Ctx, owner string) {
 func ruleReaderDoesNotWait(c *chk.Ctx) {
 	rd, _ := readerOf(c, "client")
 	if rd == nil {
+		c.Undecided("GO.nowait", nil, "ruleReaderDoesNotWait: anchor", 0, "the code this rule is anchored in was not found (rd == nil)")
 		return
 	}
 	bad := ""
